@@ -272,7 +272,25 @@ impl Reader {
 		loop {
 			// When < HEADER_SIZE bytes remain, discard them (padding) and read next block
 			if self.buffer_remaining() < WAL_RECORD_HEADER_SIZE {
+				// Padding only ever sits at the end of a full block. Left-over bytes
+				// in a short (final) block are a record header cut off by a crash: if
+				// they were skipped as padding, a writer re-opening the segment would
+				// append after them and the next read would choke on the garbage.
+				let torn_header = self.buffer_remaining() > 0 && self.buffer.len() < BLOCK_SIZE;
 				if !self.read_more()? {
+					if torn_header {
+						return Err(Error::IO(IOError::new(
+							io::ErrorKind::Other,
+							"truncated record header at end of file",
+						)));
+					}
+					// The file ends between the fragments of one logical record.
+					if fragment_index > 0 {
+						return Err(Error::IO(IOError::new(
+							io::ErrorKind::Other,
+							"truncated fragmented record at end of file",
+						)));
+					}
 					return Err(Error::IO(IOError::new(
 						io::ErrorKind::UnexpectedEof,
 						"reached end of file",
